@@ -29,6 +29,10 @@ pub enum TOp {
     /// delete the newest entity this thread created (initial entity 1 % L if none)
     DeleteOwn,
     IsAliveInit0,
+    /// request deletion of the newest entity this thread created, again if already requested
+    DeleteOwnAgain,
+    /// the newest entity this thread created must be reported alive (until maintain)
+    IsAliveOwn,
     JoinAll,
     LazyExec,
     LazyInsertInit0,
@@ -281,6 +285,25 @@ fn run_program(p: &Program, prop_c17: bool) -> ExecResult {
                             Err(e) => log.errors.push(format!("delete-refused: deletion request for live {:?} failed: {:?}", target, e)),
                         }
                     }
+                    TOp::DeleteOwnAgain => {
+                        if let Some(target) = log.created.last().copied() {
+                            match ents.delete(target) {
+                                Ok(()) => {
+                                    if !log.delete_requested.contains(&target) {
+                                        log.delete_requested.push(target);
+                                    }
+                                }
+                                Err(e) => log.errors.push(format!("delete-refused: deletion request for {:?} (created by this thread, not maintained yet) failed: {:?}", target, e)),
+                            }
+                        }
+                    }
+                    TOp::IsAliveOwn => {
+                        if let Some(target) = log.created.last().copied() {
+                            if !ents.is_alive(target) {
+                                log.errors.push(format!("alive-flicker: {:?} created by this thread is reported dead before any maintain", target));
+                            }
+                        }
+                    }
                     TOp::IsAliveInit0 => {
                         if !ents.is_alive(init[0]) {
                             log.errors.push("alive-flicker: initial entity reported dead before any maintain".into());
@@ -511,7 +534,7 @@ fn thread_programs(alphabet: &[TOp], max_len: usize) -> Vec<Vec<TOp>> {
 
 pub fn programs(thorough: bool) -> Vec<(Program, usize)> {
     use TOp::*;
-    let full = [Create, CreateIter2, Build, BuildDropped, DeleteInit0, DeleteOwn, IsAliveInit0, JoinAll, LazyExec, LazyInsertInit0, LazyCreate];
+    let full = [Create, CreateIter2, Build, BuildDropped, DeleteInit0, DeleteOwn, IsAliveInit0, JoinAll, LazyExec, LazyInsertInit0, LazyCreate, DeleteOwnAgain, IsAliveOwn];
     let core = [Create, CreateIter2, BuildDropped, DeleteInit0, DeleteOwn, JoinAll, LazyExec];
     let mut out = vec![];
     let worlds: Vec<(usize, usize)> = vec![(0, 1), (1, 1), (2, 1), (1, 2), (2, 2)];
@@ -535,6 +558,14 @@ pub fn programs(thorough: bool) -> Vec<(Program, usize)> {
                     continue; // covered above
                 }
                 out.push((Program { free: *free, live: *live, threads: vec![a.clone(), b.clone()] }, if thorough { 3 } else { 2 }));
+            }
+        }
+    }
+    // lifecycle of an own entity on a recycled index against a concurrent second thread
+    for (free, live) in &[(1usize, 1usize), (2, 1)] {
+        for mine in [vec![Create, DeleteOwn, DeleteOwnAgain], vec![Create, DeleteOwn, IsAliveOwn], vec![Build, IsAliveOwn, DeleteOwnAgain], vec![LazyCreate, DeleteOwnAgain, DeleteOwnAgain]] {
+            for other in [vec![Create], vec![DeleteInit0], vec![JoinAll], vec![CreateIter2], vec![BuildDropped]] {
+                out.push((Program { free: *free, live: *live, threads: vec![mine.clone(), other] }, 2));
             }
         }
     }
